@@ -429,7 +429,8 @@ def path_problem(kinds):
     return None
 
 
-def sequences(k: int, first: int):
+def sequences(k: int, first: int, second: int = -1):
+    """second >= 0: the second kind is fixed by the driver too (keeps the thorough tier's obligations small)"""
     from crosshair.tracers import NoTracing
 
     n = len(seq_universe())
@@ -439,6 +440,9 @@ def sequences(k: int, first: int):
         post: _
         """
         codes = [c1, c2, c3][: k - 1]
+        if second >= 0:
+            if c1 != second:
+                return True
         if not all(0 <= c < n for c in codes):
             return True
         kinds = [first]
@@ -479,7 +483,11 @@ def obligations(tier, seed):
         obs.append(ob(f"O6-nested/shape{shape}", "xh", "nested", {"shape": shape}, timeout=to * 2, group="O6-nested", bounds="carriers in [-2^63, 2^64)"))
     k = 3 if tier == "quick" else 4
     for first in range(len(seq_universe())):
-        obs.append(ob(f"O8-sequences/K{k}/first{first}", "xh", "sequences", {"k": k, "first": first}, timeout=to * 2, group="O8-sequences", bounds=f"{k} records x {len(seq_universe())} kinds, one stream"))
+        if tier == "quick":
+            obs.append(ob(f"O8-sequences/K{k}/first{first}", "xh", "sequences", {"k": k, "first": first}, timeout=to * 2, group="O8-sequences", bounds=f"{k} records x {len(seq_universe())} kinds, one stream"))
+        else:
+            for second in range(len(seq_universe())):
+                obs.append(ob(f"O8-sequences/K{k}/first{first}-{second}", "xh", "sequences", {"k": k, "first": first, "second": second}, timeout=to, group="O8-sequences", bounds=f"{k} records x {len(seq_universe())} kinds, one stream (first two kinds fixed by the driver)"))
     obs.append(ob("O7-flavour", "xh", "flavour", {}, timeout=to * 2, group="O7-flavour", bounds=f"{len(FLAVOUR_TABLE)} path/command table entries x 8 digest member subsets (contents beyond the table: outside)"))
     return obs
 
